@@ -36,6 +36,9 @@ SETS = {
                     (7 * S, 8 * S, ["last"])],
     "italics": [(S, 2 * S, [("style", True, {"italics": True}), "slanted", ("style", False, {"italics": True}), " plain"]),
                 (3 * S, 4 * S, ["after"])],
+    # two text nodes of one line with different layouts (WebVTT writes them as two timing blocks of one cue)
+    "layout groups": [(S, 2 * S, [("layout", (10, 10, "LEFT")), "speaker on the left ", ("layout", (60, 10, "RIGHT")), ("same-line", "speaker on the right")]),
+                      (3 * S, 4 * S, ["after"])],
 }
 
 
@@ -43,6 +46,9 @@ def visible_lines(lines):
     out, cur = [], ""
     first = True
     for it in lines:
+        if isinstance(it, tuple) and it[0] == "same-line":
+            cur += it[1]
+            continue
         if isinstance(it, tuple):
             continue
         if not first:
@@ -70,7 +76,18 @@ class World:
         for s, e, lines in caps:
             nodes = []
             first = True
+            lay = None
             for l in lines:
+                if isinstance(l, tuple) and l[0] == "layout":
+                    x, y, al = l[1]
+                    g = "pycaption.geometry"
+                    lay = self.F.eval_in(g, ast.parse(
+                        f"Layout(origin=Point(Size({x}, UnitEnum.PERCENT), Size({y}, UnitEnum.PERCENT)), "
+                        f"alignment=Alignment(HorizontalAlignmentEnum.{al}, VerticalAlignmentEnum.TOP))", mode="eval").body, {})
+                    continue
+                if isinstance(l, tuple) and l[0] == "same-line":
+                    nodes.append(self.ev("CaptionNode.create_text(t, layout_info=l)", t=l[1], l=lay))
+                    continue
                 if isinstance(l, tuple):
                     nodes.append(self.ev("CaptionNode.create_style(s, c)", s=l[1], c=dict(l[2])))
                     continue
@@ -78,7 +95,7 @@ class World:
                     nodes.append(self.ev("CaptionNode.create_break()"))
                 first = False
                 if l != "":
-                    nodes.append(self.ev("CaptionNode.create_text(t)", t=l))
+                    nodes.append(self.ev("CaptionNode.create_text(t, layout_info=l)", t=l, l=lay))
             cl.append(self.ev("Caption(s, e, n)", s=s, e=e, n=nodes))
         return self.ev("CaptionSet({'en-US': CaptionList(c)})", c=cl)
 
@@ -127,14 +144,16 @@ def explore(ctx, thorough):
     fns = []
     for (label, caps), (a, b) in itertools.product(SETS.items(), itertools.product(FORMATS, repeat=2)):
         n += 1
-        want = [(s, e, visible_lines(ls)) for s, e, ls in caps]
+        # text is compared white-space normalised, line breaks included (a cue split over layout groups comes back with a
+        # line break between the groups; the line structure of single hops is C03's and C04's business)
+        want = [(s, e, " ".join(visible_lines(ls))) for s, e, ls in caps]
         case = {"caption_set": label, "chain": f"{a} -> {b}"}
         try:
             cs = W.caption_set(caps)
             r1 = W.read(b, W.write(b, W.read(a, W.write(a, cs))))
-            got = cues(r1)
+            got = [(s_, e_, " ".join(ls_)) for s_, e_, ls_ in cues(r1)]
             r2 = W.read(b, W.write(b, W.read(a, W.write(a, r1))))
-            got2 = cues(r2)
+            got2 = [(s_, e_, " ".join(ls_)) for s_, e_, ls_ in cues(r2)]
             sami = W.write("SAMI", r1) if thorough or a == b else None
         except FoldRaise as e:
             bad["chain"].append(dict(case, raises=f"{e.exc_name}: {e}"[:160]))
@@ -149,8 +168,8 @@ def explore(ctx, thorough):
             texts = [re.sub(r"\s+", " ", html_unescape(re.sub(r"<[^>]+>", " ", t))).strip()
                      for t in re.findall(r"<p [^>]*>\s*(.*?)\s*</p>", sami, re.S)]
             texts = [t for t in texts if t and t != " "]
-            if texts != [" ".join(ls) for _, _, ls in want]:
-                bad["sami"].append(dict(case, paragraphs=texts[:4], required=[" ".join(ls) for _, _, ls in want][:4]))
+            if texts != [t_ for _, _, t_ in want]:
+                bad["sami"].append(dict(case, paragraphs=texts[:4], required=[t_ for _, _, t_ in want][:4]))
     for path, w, r in FORMATS.values():
         fns.append(ctx.index.get_class(path, w).find_method("write"))
         fns.append(ctx.index.get_class(path, r).find_method("read"))
